@@ -827,7 +827,8 @@ def _string_builder(t):
     common = bool(guards[0]) and all(g == guards[0] for g in guards) and len(guards[0]) == 1 and guards[0][0][:3] == ("guard", "if", True)
     if any(guards) and not common:
         # pieces pushed under their own `if`s: each is the piece or nothing
-        if any(g[:2] != ("guard", "if") for gs in guards for g in gs) or any(e[0] != "mutcall" or e[1] not in ("String::push", "String::push_str") for e in effs):
+        if any(g[:2] not in (("guard", "if"), ("guard", "arm")) for gs in guards for g in gs) \
+                or any(e[0] != "mutcall" or e[1] not in ("String::push", "String::push_str") for e in effs):
             return t
         for e in effs:
             if len(e[3]) != 1 or e[2] != "":
@@ -837,17 +838,35 @@ def _string_builder(t):
             if e[-1]:
                 c = None
                 for g in e[-1]:
-                    k = g[3] if g[2] else _not(g[3])
+                    if g[1] == "arm":
+                        k = _let(g[3], g[2])            # pushed in the arm of a match: pushed when the pattern matches
+                    else:
+                        k = g[3] if g[2] else _not(g[3])
                     c = k if c is None else ("op", "&&", [c, k])
                 val = ("lit", piece[0][1]) if len(piece) == 1 and piece[0][0] == "lit" else x if piece == [("arg", "", x)] else ("fmt", piece)
                 piece = [("arg", "", _mk_if(c, val, ("lit", "")))]
             parts.extend(piece)
+        # a piece pushed when c holds followed by a piece pushed when it does not: one piece chosen by c
+        EMPTY = ("lit", "")
+        k = 0
+        while k + 1 < len(parts):
+            a_, b_ = parts[k], parts[k + 1]
+            if a_[0] == "arg" and b_[0] == "arg" and a_[2][0] == "if" and b_[2][0] == "if" and a_[2][1] == b_[2][1] \
+                    and a_[2][3] == EMPTY and b_[2][2] == EMPTY and not _has_try(a_[2][1]):
+                parts[k:k + 2] = [("arg", "", _mk_if(a_[2][1], a_[2][2], b_[2][3]))]
+            elif a_[0] == "arg" and b_[0] == "arg" and a_[2][0] == "if" and b_[2][0] == "if" and a_[2][1] == b_[2][1] \
+                    and a_[2][2] == EMPTY and b_[2][3] == EMPTY and not _has_try(a_[2][1]):
+                parts[k:k + 2] = [("arg", "", _mk_if(a_[2][1], b_[2][2], a_[2][3]))]
+            else:
+                k += 1
         merged = []
         for p_ in parts:
             if p_[0] == "lit" and merged and merged[-1][0] == "lit":
                 merged[-1] = ("lit", merged[-1][1] + p_[1])
             else:
                 merged.append(p_)
+        if len(merged) == 1 and merged[0][0] == "arg" and merged[0][1] in ("", "new_display"):
+            return merged[0][2]          # a String that received one piece is that piece's text
         return ("fmt", merged)
     for e in effs:
         if not (e[0] == "mutcall" and e[1] in _STR_EDITS and e[2] == ""):
@@ -874,6 +893,8 @@ def _string_builder(t):
             else:
                 merged.append(q_)
     r = ("fmt", merged)
+    if len(merged) == 1 and merged[0][0] == "arg" and merged[0][1] in ("", "new_display") and not guards[0]:
+        return merged[0][2]              # a String that received one piece is that piece's text
     if guards[0]:
         return _mk_if(guards[0][0][3], r, init)
     return r
@@ -2245,7 +2266,7 @@ class Norm:
                     j += 1
                 if len(run) >= 2:
                     text = _string_builder(("mut", "?", ("call", "String::new", []), [tuple(list(e[:-1]) + [list(e[-1][1:])]) for e in run]))
-                    if text[0] == "fmt":
+                    if text[0] != "mut":
                         merged.append(("mutcall", "String::push_str", "", [text], [a[-1][0]]))
                         i = j
                         continue
@@ -3060,6 +3081,16 @@ class Norm:
         fl = as_for_loop(node)
         if fl is not None:
             return self._only_mut_effects(fl[2], allow_lets=True)
+        if k == "Match" and node.get("src") == "Normal" and node.get("arms") and all(a.get("guard") is None for a in node["arms"]):
+            # a match whose arms consist of such statements only (an arm may also do nothing)
+            def arm_ok(b_):
+                b_ = strip(b_)
+                if b_.get("k") == "Tup" and not b_.get("es"):
+                    return True
+                if b_.get("k") == "Block" and not b_["b"].get("stmts") and "expr" not in b_["b"]:
+                    return True
+                return self._only_mut_effects(b_)
+            return all(arm_ok(a["body"]) for a in node["arms"]) and any(self._only_mut_effects(a["body"]) for a in node["arms"])
         return False
 
     def _only_mut_effects(self, blk, allow_lets=False):
@@ -3652,6 +3683,7 @@ class Norm:
                             bound = {x["id"] for x in walk(st["pat"]) if x.get("k") == "Bind"}
                             in_block = {id(x) for x in walk(e)}
                             flows = False
+                            both = {}
                             for effs_ in self.effects.values():
                                 for node_, kind_, _g in effs_:
                                     if id(node_) in in_block and (kind_ == "mutcall" or kind_.startswith("mutarg")):
@@ -3665,6 +3697,11 @@ class Norm:
                                         # (the update happens whenever the value exists, or the value is asked about before the update)
                                         if (not extra_g and uses(node_)) or any(g_[0] == "if" and uses(g_[1]) for g_ in extra_g[:1]):
                                             flows = True
+                                        elif len(extra_g) == 1 and extra_g[0][0] == "if" and uses(node_):
+                                            # .. or on either side of one test
+                                            both.setdefault(id(extra_g[0][1]), set()).add(bool(extra_g[0][2]))
+                                            if both[id(extra_g[0][1])] == {True, False}:
+                                                flows = True
                             if not flows:
                                 pend.append(pt)
             if pend:
